@@ -253,7 +253,17 @@ for make in (lambda: create_new_processor(processor=proc, parameter_dict={'detec
         VIOLATED, DETAIL = True, "mutating the new processor changed the caller's: pixel[0,0]=%r memory=%r table=%r qe=%r" % (
             det.pixel.array[0, 0], det._memory['trapped'][0], proc.pipeline.photon_collection.models[0].arguments['table'], det.characteristics.quantum_efficiency)
         break
-""", "expect": "a processor made for a run shares no mutable state with the caller's processor"}
+if not VIOLATED:
+    # the requested values are SET on the copy whatever they are (0.0, 0, False included)
+    for key, val, get in (('detector.characteristics.quantum_efficiency', 0.0, lambda p: p.detector.characteristics.quantum_efficiency),
+                          ('pipeline.photon_collection.m.arguments.level', 0, lambda p: p.pipeline.photon_collection.m.arguments['level']),
+                          ('pipeline.photon_collection.m.enabled', False, lambda p: p.pipeline.photon_collection.m.enabled)):
+        for make in (lambda: create_new_processor(processor=proc, parameter_dict={key: val}), lambda: proc.replace({key: val})):
+            got = get(make())
+            if got != val or type(got) is not type(val):
+                VIOLATED, DETAIL = True, f'requested {key} = {val!r}: the new processor holds {got!r}'; break
+        if VIOLATED: break
+""", "expect": "a processor made for a run shares no mutable state with the caller's processor and holds the requested values"}
 
 
 RUNS_REPLAY = lambda w: {"code": """
